@@ -96,14 +96,19 @@ class Problem:
         self.V = 2.5
         self.jnp = jnp
 
-    def loss(self, hetero=None, dk="both"):
+    def loss(self, hetero=None, dk="both", Tmax=None):
         import jinns
         from jinns.parameters import Params
 
         jnp = self.jnp
         kind, parts = self.kind, self.parts
-        dyn = self.spec.module(kind, **({"eq_params_heterogeneity": hetero} if hetero is not None else {}))
-        params = Params(nn_params=self.net.nn_params(), eq_params={k: jnp.asarray(v) for k, v in EQ0.items()})
+        mkw = {"eq_params_heterogeneity": hetero} if hetero is not None else {}
+        if Tmax is not None:
+            mkw["Tmax"] = Tmax  # the harness equations do not use Tmax: it must not leak into anything
+        dyn = self.spec.module(kind, **mkw)
+        eqd = dict(EQ0)
+        eqd.update(self.case.get("extra_eq", {}))
+        params = Params(nn_params=self.net.nn_params(), eq_params={k: jnp.asarray(v) for k, v in eqd.items()})
         self.params = params
         u = self.net.pinn()
         kw = {}
@@ -378,8 +383,9 @@ def run_case(case, rec):
             e[k] = hv
         return e
 
-    loss_h = guard.call(pr.loss, hetero=hetero)
-    loss_0 = guard.call(pr.loss, hetero=None)
+    Tmax = [1.0, 2.5, 0.4][case["seed"] % 3]
+    loss_h = guard.call(pr.loss, hetero=hetero, Tmax=Tmax)
+    loss_0 = guard.call(pr.loss, hetero=None, Tmax=Tmax)
     params = pr.params
     tabs = {"kappa": -rng.uniform(0.4, 1.6, (B, 1))} if case["pbatch"] else None
     batch = pr.batch(param_batch=tabs)
